@@ -10,7 +10,7 @@ from ..harness import Violation
 ID = "C11"
 LEVEL = "fault_enumeration"
 RULE = ("Complete enumeration (thorough) of: operation in {connect no-auth / signature / public-key, shell, streaming_shell, exec_out, root, list, stat, pull, push} x stall point k in "
-        "every device packet of the unstalled run x stall kind in {silence (transport raises), silence (transport returns b''), EOF, trickle 1 byte per read, only foreign traffic for ever} x "
+        "every device packet of the unstalled run x stall kind in {silence (transport raises), silence (transport returns b''), EOF, trickle 1 byte per read, only foreign traffic for ever; plus, for commands with a whole-command limit, endless output on the command's own stream} x "
         "transport_timeout_s in {None,-1,0,0.1,2,30} x read_timeout_s in {-1,0,0.5,10} x timeout_s in {None,0,0.3,30} (where the API has it) x both APIs, under a virtual clock; quick tier: "
         "a seed-chosen 1/8 slice plus every k=last case; Hypothesis adds off-grid timeouts. Oracle: the call raises AdbTimeoutError or TcpTimeoutException within "
         "4*(max(R,0)+max(T_eff,0)) + max(total,0) + 1 s of virtual time after the stall began (x2 for pull, which also awaits its closing CLSE), never returns normally unless the data kept "
@@ -18,7 +18,7 @@ RULE = ("Complete enumeration (thorough) of: operation in {connect no-auth / sig
         "Non-trivial: stall at k >= 1. Distinct = (op, k, kind, timeouts, api).")
 ASSUMPTIONS = ["virtual clock: data-carrying calls cost 1 us, empty reads 1 ms, a silent read costs its timeout, foreign packets 50 ms each", "auth_timeout_s=None (documented 'wait for ever') excluded"]
 
-KINDS = ["silence-raises", "silence-empty", "eof", "trickle", "foreign"]
+KINDS = ["silence-raises", "silence-empty", "eof", "trickle", "foreign"]     # plus "endless" (whole-command limit part)
 T_GRID = [None, -1, 0, 0.1, 2, 30]
 R_GRID = [-1, 0, 0.5, 10]
 TOTAL_GRID = [None, 0, 0.3, 30]
@@ -220,6 +220,23 @@ def run(tier, seed):
                                 if i % nshards == shard:
                                     yield {"op": opname, "api": api, "k": 1, "kind": "trickle", "T": T, "R": R, "total": total, "delta": delta}
     col.merge(harness.enumeration_part("grid", long_items, check_case))
+
+    def endless_items(shard, nshards):
+        i = 0
+        for opname in ("shell", "exec_out", "root"):
+            for api in ("sync", "async"):
+                for delta in (0.001, 0.01, 0.2):
+                    for T in (None, 0.1, 2):
+                        for R in (0.5, 10):
+                            for total in (0, 0.3, 5):
+                                i += 1
+                                if i % nshards == shard:
+                                    yield {"op": opname, "api": api, "k": 1, "kind": "endless", "T": T, "R": R, "total": total, "delta": delta}
+                                    if total == 0 and delta == 0.001:
+                                        # output that is always ready (zero delay) is only meaningful with timeout_s=0: any positive limit would need
+                                        # 10^5 packets of 1 us each to elapse, which is the harness's call budget, not a property of the code
+                                        yield {"op": opname, "api": api, "k": 1, "kind": "endless", "T": T, "R": R, "total": 0, "delta": 0.0}
+    col.merge(harness.enumeration_part("grid", endless_items, check_case))
     col.merge(harness.hypothesis_part("grid", offgrid(), check_case, 1500 if quick else 40000, seed, shrink=not quick))
     return harness.finish(ID, tier, seed, LEVEL, col, RULE, ASSUMPTIONS, t0, exhaustive=not quick,
                           extra={"grid_complete": not quick, "ops": {k: list(unstalled_counts(k, "sync")) for k in BASES}})
